@@ -862,6 +862,8 @@ class Exec:
 
     def binop(self, op, a, b, node=None):
         opname = type(op).__name__
+        if isinstance(a.ty, TOpt) and not self.spec: a = self.co(a, a.ty.inner)      # None as an operand raises TypeError
+        if isinstance(b.ty, TOpt) and not self.spec: b = self.co(b, b.ty.inner)
         # user-defined dunder on enum / rec classes
         dunder = {'Add': '__add__', 'Mult': '__mul__', 'Sub': '__sub__', 'BitOr': '__or__', 'BitAnd': '__and__'}.get(opname)
         if dunder and isinstance(a.ty, (TEnum, TRec, TRef)):
@@ -1214,9 +1216,10 @@ class Exec:
     def e_ListComp(self, n): return self.comprehension(n)
 
     def comprehension(self, n):
-        if len(n.generators) != 1 or n.generators[0].ifs or n.generators[0].is_async:
-            raise Unsupported('comprehension with filter / nesting')
+        if len(n.generators) != 1 or n.generators[0].is_async or len(n.generators[0].ifs) > 1:
+            raise Unsupported('comprehension with several filters / nesting')
         g = n.generators[0]
+        if g.ifs: return self.filtered_comprehension(n, g)
         c = self.frame.get('contract')
         if c is not None and not self.spec and not self.nofork and not self.frame.get('inlined'):
             k = self.call_counts.get('comp', 0); lc = c.loops.get('comp#%d' % k)
@@ -1235,6 +1238,34 @@ class Exec:
             finally:
                 ex.st.env = saved_env
         return IterV(it.ln, get)
+
+    def filtered_comprehension(self, n, g):
+        """[elt for x in src if cond(x)]  (pure elt / cond):  the subsequence of the source elements satisfying cond, in order.
+        Encoded with a strictly increasing index function pick: 0..len(r)-1 -> positions of src;  every picked element satisfies cond,
+        every element satisfying cond is picked."""
+        it = self.iter_of(self.eval(g.iter)); sv = self.materialize(it)
+        saved_env = self.st.env
+        def at(j, expr):
+            self.st.env = dict(saved_env)
+            try:
+                self.assign(g.target, seq_get(sv, j)); return self.val(self.eval(expr))
+            finally: self.st.env = saved_env
+        j = z3.Int('fj!q'); k = z3.Int('fk!q'); k2 = z3.Int('fk2!q')
+        self.nofork += 1; self.binders.append(j)
+        try:
+            try:
+                cond = truth(at(j, g.ifs[0])); elt_j = at(j, n.elt)
+            except NeedFork: raise Unsupported('filtered comprehension whose filter / element needs a fork')
+        finally: self.nofork -= 1; self.binders.pop()
+        ln = fresh('flen', z3.IntSort()); pick = fresh('pick', z3.ArraySort(z3.IntSort(), z3.IntSort()))
+        sub = lambda f, v: z3.substitute(f, (j, v))
+        self.assume(z3.And(ln >= 0, ln <= sv.t[0]))
+        self.assume(z3.ForAll([k], z3.Implies(z3.And(k >= 0, k < ln), z3.And(pick[k] >= 0, pick[k] < sv.t[0], sub(cond, pick[k])))))
+        self.assume(z3.ForAll([k, k2], z3.Implies(z3.And(k >= 0, k < k2, k2 < ln), pick[k] < pick[k2])))
+        self.assume(z3.ForAll([j], z3.Implies(z3.And(j >= 0, j < sv.t[0], cond), z3.Exists([k], z3.And(k >= 0, k < ln, pick[k] == j)))))
+        ety = elt_j.ty
+        arr = z3.Lambda([k], z3.substitute(pack(elt_j), (j, pick[k])))
+        return V(TSeq(ety), (ln, arr))
 
     def comprehension_loop(self, n, g, lc, base):
         """[elt for target in iter] whose element expression has effects (calls with `modifies`): executed as the loop
@@ -1648,7 +1679,11 @@ class Exec:
         def co_arg(a, ty):
             if isinstance(a, (CoroV, BoundMethod, FuncRef, LambdaV)) and isinstance(ty, TRef) and ty.universal:
                 return V(ty, fresh('pyobj', sort_of(ty)))      # a coroutine / callable handed to outside code: an opaque object
-            return self.co(a, ty)
+            try: return self.co(a, ty)
+            except Unsupported:
+                if isinstance(ty, TRef) and ty.universal and isinstance(a, V):
+                    return V(ty, fresh('pyobj', sort_of(ty)))      # a structured value handed to outside code where any object is accepted
+                raise
         for nme, a in zip(pnames, pos): vals[nme] = co_arg(a, self.w.ty(c['params'][nme]))
         for k, a in kwargs.items():
             if k in c['params']: vals[k] = co_arg(a, self.w.ty(c['params'][k]))
